@@ -15,7 +15,7 @@ func init() {
 		Explanation: "(a) the library packages have no package-level mutable state: no function of solver/maxsat/explain/bf outside package initialisers stores to a package-level variable, mutates storage reachable from one, or hands such storage to a caller, and no library file imports unsafe or reflect - so two uses that share no data share no memory location, under every interleaving; " +
 			"(b) every goroutine the library starts with verbose output off hands its results over through a join (complete drain of a channel it closes last, or a receive of its final send) before the spawner touches anything the goroutine may write.",
 		NotDecided: "agreement of concurrent and sequential results (follows from (a) only under the assumption that the standard library is race free); nothing is executed.",
-		Rules:      []ruleFn{ruleR16_1, ruleR16_2, ruleR16_3, ruleR20_1_2, ruleR20_3},
+		Rules:      []ruleFn{ruleR16_1, ruleR16_2, ruleR16_3, ruleR20_1_2, ruleR20_3, ruleR19_7},
 		Fixtures:   []func(*World) []string{fixtureR16_1, fixtureR16_2},
 	})
 }
